@@ -306,6 +306,60 @@ func runC12(c *Ctx) {
 		c.verdict(len(bad) == 0, construct, c.P.Pos(fn.Pos()), "every value that can reach jobResult.err is produced in the current iteration", join(bad), c.ats(stores)...)
 	})
 
+	c.rule("C12.V3", "a result is counted for the batch that issued the request: the dispatcher reads the batch of a result from currentQueries by the result's job index, with a plain lookup whose answer for a missing key is batch number 0 (a real batch: the first one accepted); so an entry leaves currentQueries only under the index of the result just received - purging the entries of a finished batch would attribute its late results to batch 0", func() {
+		fn := c.fn(fnDispatch)
+		isQueries := func(v ssa.Value) bool {
+			m, ok := v.Type().Underlying().(*types.Map)
+			if !ok {
+				return false
+			}
+			kb, ok1 := m.Key().Underlying().(*types.Basic)
+			vb, ok2 := m.Elem().Underlying().(*types.Basic)
+			return ok1 && ok2 && kb.Kind() == types.Uint64 && vb.Kind() == types.Uint64
+		}
+		idxF := c.field("query", "queryJob", "index")
+		jr := c.field("query", "peerWorkManager", "jobResults")
+		fromResult := func(v ssa.Value) bool {
+			return loadsField(idxF)(v) && ir.InfluencedBy(v, func(x ssa.Value) bool {
+				switch y := x.(type) {
+				case *ssa.Select:
+					for _, st := range y.States {
+						if st.Dir == types.RecvOnly && loadsField(jr)(st.Chan) {
+							return true
+						}
+					}
+				case *ssa.UnOp:
+					return y.Op == token.ARROW && loadsField(jr)(y.X)
+				}
+				return false
+			})
+		}
+		funcs := append([]*ssa.Function{fn}, fn.AnonFuncs...)
+		var plain, dels, badDel []ssa.Instruction
+		for _, f := range funcs {
+			ir.Instrs(f, func(in ssa.Instruction) {
+				if lk, ok := in.(*ssa.Lookup); ok && !lk.CommaOk && isQueries(lk.X) {
+					plain = append(plain, in)
+				}
+			})
+			for _, d := range find(f, mapDelete(isQueries)) {
+				dels = append(dels, d)
+				if f != fn || !fromResult(ir.CallOf(d).Args[1]) {
+					badDel = append(badDel, d)
+				}
+			}
+		}
+		construct := c.nm(fn) + " | currentQueries entries leave only with their own result"
+		if len(plain) == 0 {
+			// every lookup says whether the key was there: nothing to protect
+			c.verdict(true, construct, c.P.Pos(fn.Pos()), "currentQueries is only read with the comma-ok form", "")
+			return
+		}
+		c.verdict(len(badDel) == 0 && len(dels) >= 1, construct, c.P.Pos(fn.Pos()),
+			fmt.Sprintf("%d delete(s) on currentQueries, each keyed by the index of the result just received", len(dels)),
+			fmt.Sprintf("an entry of currentQueries is deleted under a key other than the index of the result just received (%d of %d deletes): a later result of that request is looked up with the plain form at %s and lands on batch 0", len(badDel), len(dels), join(c.ats(plain))), c.ats(badDel)...)
+	})
+
 	c.rule("C12.O3", workerPerPeerDoc, func() { c.workerPerPeer() })
 
 	c.rule("C12.O4", "a job is never handed to a dead worker: the dispatcher's blocking hand-over (the select that sends on worker.NewJob()) also waits on that worker's exit signal (activeWorker.onExit), and on that arm forgets the worker and moves on; a peer that disconnected between jobs would otherwise block the dispatcher, and every batch with it, until shutdown", func() {
@@ -499,70 +553,70 @@ const workerPerPeerDoc = "every available peer gets a worker: in workDispatcher,
 
 // workerPerPeer: see workerPerPeerDoc.
 func (c *Ctx) workerPerPeer() {
-		fn := c.fn(fnDispatch)
-		var peerT types.Type
-		if n := c.P.Named("query", "Peer"); n != nil {
-			peerT = n
-		}
-		starts := c.selectArms(fn, func(sel *ssa.Select, st *ssa.SelectState) bool {
-			if st.Dir != types.RecvOnly {
-				return false
-			}
-			ch, ok := st.Chan.Type().Underlying().(*types.Chan)
-			return ok && peerT != nil && types.Identical(ch.Elem(), peerT)
-		}, "peer connected")
-		aw := c.P.Named("query", "activeWorker")
-		reg := mapUpdate(func(m ssa.Value) bool {
-			mt, ok := m.Type().Underlying().(*types.Map)
-			return ok && aw != nil && elemIs(mt.Elem(), aw)
-		})
-		c.mustFollowIter(fn, "peer connected", starts, reg, "workers[peer.Addr()] = &activeWorker{..}", nil, 1)
-		c.graph()
-		run := c.method("query", "Worker", "Run")
-		goRun := func(in ssa.Instruction) bool {
-			g, ok := in.(*ssa.Go)
-			if !ok {
-				return false
-			}
-			for _, t := range c.valueFuncs(g.Call.Value, 0) {
-				if len(find(t, callTo(run))) > 0 {
-					return true
-				}
-			}
+	fn := c.fn(fnDispatch)
+	var peerT types.Type
+	if n := c.P.Named("query", "Peer"); n != nil {
+		peerT = n
+	}
+	starts := c.selectArms(fn, func(sel *ssa.Select, st *ssa.SelectState) bool {
+		if st.Dir != types.RecvOnly {
 			return false
 		}
-		c.mustFollowIter(fn, "peer connected", starts, goRun, "go r.Run(w.jobResults, w.quit)", nil, 1)
+		ch, ok := st.Chan.Type().Underlying().(*types.Chan)
+		return ok && peerT != nil && types.Identical(ch.Elem(), peerT)
+	}, "peer connected")
+	aw := c.P.Named("query", "activeWorker")
+	reg := mapUpdate(func(m ssa.Value) bool {
+		mt, ok := m.Type().Underlying().(*types.Map)
+		return ok && aw != nil && elemIs(mt.Elem(), aw)
+	})
+	c.mustFollowIter(fn, "peer connected", starts, reg, "workers[peer.Addr()] = &activeWorker{..}", nil, 1)
+	c.graph()
+	run := c.method("query", "Worker", "Run")
+	goRun := func(in ssa.Instruction) bool {
+		g, ok := in.(*ssa.Go)
+		if !ok {
+			return false
+		}
+		for _, t := range c.valueFuncs(g.Call.Value, 0) {
+			if len(find(t, callTo(run))) > 0 {
+				return true
+			}
+		}
+		return false
+	}
+	c.mustFollowIter(fn, "peer connected", starts, goRun, "go r.Run(w.jobResults, w.quit)", nil, 1)
 }
 
 const batchRendezvousDoc = "handing a batch to the dispatcher is a rendezvous: every channel stored into peerWorkManager.newBatches is made without capacity, so a send that succeeds in Query means the dispatcher has registered the batch (and owes it a verdict, C12.X1); a batch parked in a buffer when the dispatcher exits would never get one"
 
 // batchRendezvous: see batchRendezvousDoc.
 func (c *Ctx) batchRendezvous() {
-		nb := c.field("query", "peerWorkManager", "newBatches")
-		n := 0
-		okv := true
-		var sites []string
-		for _, fn := range c.P.Funcs {
-			ir.Instrs(fn, func(in ssa.Instruction) {
-				st, ok := in.(*ssa.Store)
-				if !ok {
-					return
-				}
-				fa, ok := st.Addr.(*ssa.FieldAddr)
-				if !ok || ir.FieldOfAddr(fa) != nb {
-					return
-				}
-				n++
-				sites = append(sites, c.at(in))
-				mk, isMk := ir.Strip(st.Val).(*ssa.MakeChan)
-				if !isMk {
-					okv = false
-					return
-				}
-				if k, isC := ir.ConstInt(mk.Size); !isC || k != 0 {
-					okv = false
-				}
-			})
-		}
-		c.verdict(okv && n >= 1, "query.peerWorkManager.newBatches | made without capacity", "", fmt.Sprintf("%d allocation(s), all unbuffered", n), "peerWorkManager.newBatches is (or may be) a buffered channel: Query's send succeeds while the batch is still in the buffer; when the dispatcher exits, its shutdown sweep only answers registered batches and the buffered ones never get a verdict", sites...)
+	nb := c.field("query", "peerWorkManager", "newBatches")
+	n := 0
+	okv := true
+	var sites []string
+	for _, fn := range c.P.Funcs {
+		ir.Instrs(fn, func(in ssa.Instruction) {
+			st, ok := in.(*ssa.Store)
+			if !ok {
+				return
+			}
+			fa, ok := st.Addr.(*ssa.FieldAddr)
+			if !ok || ir.FieldOfAddr(fa) != nb {
+				return
+			}
+			n++
+			sites = append(sites, c.at(in))
+			mk, isMk := ir.Strip(st.Val).(*ssa.MakeChan)
+			if !isMk {
+				okv = false
+				return
+			}
+			if k, isC := ir.ConstInt(mk.Size); !isC || k != 0 {
+				okv = false
+			}
+		})
+	}
+	c.verdict(okv && n >= 1, "query.peerWorkManager.newBatches | made without capacity", "", fmt.Sprintf("%d allocation(s), all unbuffered", n), "peerWorkManager.newBatches is (or may be) a buffered channel: Query's send succeeds while the batch is still in the buffer; when the dispatcher exits, its shutdown sweep only answers registered batches and the buffered ones never get a verdict", sites...)
 }
